@@ -539,6 +539,307 @@ Proof.
     destruct (depth =? d) eqn:E; cbn [last_run fold_left]; rewrite ?E; apply IH.
 Qed.
 
+(* ------------------------------------------------------------ the matching buffer stays bounded (C05) *)
+Definition BUFB : nat := MAXB - 1 + CHUNK.
+Definition buf_ok (s : st) : Prop := off s + length (avail s) <= BUFB.
+Definition ev_buf_ok (e : ev) : Prop :=
+  match e with ERun _ _ b | EFallback _ b | ESkip _ _ b => length b <= BUFB | _ => True end.
+
+Section Buffer.
+Hypothesis maxb_pos : 1 <= MAXB.
+Hypothesis H_len : forall m n dta n', nread m n = (RData dta, n') -> length dta <= m.
+
+Lemma buf_ok_prefetch s s' : buf_ok s -> prefetch s = inl s' -> buf_ok s'.
+Proof.
+  unfold Router.prefetch, buf_ok, BUFB. intros Hok. destruct (MAXB <=? off s + length (avail s)) eqn:E; [discriminate|].
+  apply Nat.leb_gt in E. destruct (nread CHUNK (nt s)) as [r n'] eqn:ER. destruct r; try discriminate.
+  intro H; inversion H; subst; cbn [off avail]. rewrite app_length. pose proof (H_len _ _ _ _ ER). lia.
+Qed.
+Lemma buf_ok_prefetch_fail s w s' : buf_ok s -> prefetch s = inr (w, s') -> buf_ok s'.
+Proof. intros Hok H. apply prefetch_inr in H. destruct H as (_ & Ho & Ha). unfold buf_ok. rewrite Ho, Ha. exact Hok. Qed.
+Lemma buf_ok_read_full k s r s' : buf_ok s -> read_full_st k s = (r, s') -> buf_ok s'.
+Proof.
+  unfold Router.read_full_st, buf_ok. intro Hok. destruct (k <=? length (avail s)) eqn:E.
+  - apply Nat.leb_le in E. intro H; inversion H; subst; cbn [off avail]. rewrite skipn_length. destruct (k =? length (avail s)); lia.
+  - destruct (net_read_full net nread (S k) (k - length (avail s)) (avail s) (nt s)) as [r0 n'].
+    intro H; inversion H; subst; cbn [off avail length]. lia.
+Qed.
+
+Definition buf_ext_ok (c : nat -> list route -> Z -> (st -> res) -> st -> res) : Prop :=
+  forall d rs t s, buf_ok s -> exists own, evs (res_st (c d rs t (fun s' => Cont s') s)) = evs s ++ own /\ Forall ev_buf_ok own /\
+                                           buf_ok (res_st (c d rs t (fun s' => Cont s') s)).
+
+Section Level.
+Variable sub : nat -> list route -> Z -> (st -> res) -> st -> res.
+Hypothesis sub_tail : tail_ok sub.
+Hypothesis sub_buf : buf_ext_ok sub.
+Variable d : nat.
+
+Lemma chain_buf idx hs : forall s, buf_ok s ->
+  exists own, evs (res_st (chain sub d idx hs (fun s' => Cont s') s)) = evs s ++ own /\ Forall ev_buf_ok own /\
+              buf_ok (res_st (chain sub d idx hs (fun s' => Cont s') s)).
+Proof.
+  induction hs as [|h hs IH]; intros s Hok; cbn [Router.chain].
+  - exists []. rewrite app_nil_r. auto.
+  - destruct h.
+    + exists []. rewrite app_nil_r. auto.
+    + destruct (read_full_st k s) as [[dta|] s'] eqn:ER; pose proof (buf_ok_read_full _ _ _ _ Hok ER) as Hok'; apply read_full_st_evs in ER.
+      * destruct (IH (emit (ERead d idx dta) s') Hok') as (own & He & Hf & Hb).
+        exists (ERead d idx dta :: own). rewrite He, evs_emit, ER, <- app_assoc. repeat split; auto. constructor; [exact I|exact Hf].
+      * exists [EHErr d idx]. cbn [res_st]. rewrite evs_emit, ER. repeat split; auto. repeat constructor.
+    + exists [EHErr d idx]. cbn [res_st]. rewrite evs_emit. repeat split; auto. repeat constructor.
+    + apply IH; exact Hok.
+    + rewrite (sub_tail (S d) rs timeout). destruct (sub_buf (S d) rs timeout s Hok) as (own1 & He1 & Hf1 & Hb1).
+      destruct (sub (S d) rs timeout (fun s' => Cont s') s) as [s1|s1|s1|s1] eqn:ES; cbn [bind]; cbn [res_st] in He1, Hb1.
+      2: { destruct (IH s1 Hb1) as (own & He & Hf & Hb). exists (own1 ++ own). rewrite He, He1, <- app_assoc.
+           repeat split; auto. apply Forall_app; auto. }
+      all: exists own1; cbn [res_st]; auto.
+Qed.
+
+Definition pass_buf_post (s : st) (pr : passres net) : Prop :=
+  match pr with
+  | PFinal r => exists own, evs (res_st r) = evs s ++ own /\ Forall ev_buf_ok own /\ buf_ok (res_st r)
+  | PState _ _ _ s' => exists own, evs s' = evs s ++ own /\ Forall ev_buf_ok own /\ buf_ok s'
+  end.
+
+Lemma pass_buf_prepend s s1 pr pre1 : evs s1 = evs s ++ pre1 -> Forall ev_buf_ok pre1 -> pass_buf_post s1 pr -> pass_buf_post s pr.
+Proof.
+  intros He Hf. destruct pr as [r|? ? ? s']; cbn [pass_buf_post]; intros (own & He' & Hf' & Hb');
+    exists (pre1 ++ own); rewrite He', He, <- app_assoc; repeat split; auto; apply Forall_app; auto.
+Qed.
+
+Lemma buf_ok_avail s : buf_ok s -> length (avail s) <= BUFB.
+Proof. unfold buf_ok. lia. Qed.
+
+Lemma pass_buf : forall rest i lm lnm stt nm s, buf_ok s -> pass_buf_post s (pass sub d i rest lm lnm stt nm s).
+Proof.
+  induction rest as [|[mss hs] rest IH]; intros i lm lnm stt nm s Hok; cbn [Router.pass].
+  - exists []. rewrite app_nil_r. auto.
+  - destruct (leo i lm); [apply IH; exact Hok|].
+    destruct (is_no (stt i) && leo i lnm).
+    { apply (pass_buf_prepend s (emit (ESkip d i (avail s)) s) _ [ESkip d i (avail s)]); [apply evs_emit| |apply IH; exact Hok].
+      constructor; [apply buf_ok_avail; exact Hok|constructor]. }
+    destruct (anymatch mss (avail s)).
+    + set (s1 := emit (ERun d i (avail s)) (clear s)).
+      assert (Hs1 : evs s1 = evs s ++ [EClear; ERun d i (avail s)]) by (unfold s1; rewrite evs_emit, evs_clear, <- app_assoc; reflexivity).
+      assert (Hf1 : Forall ev_buf_ok [EClear; ERun d i (avail s)]) by (constructor; [exact I|constructor; [apply buf_ok_avail; exact Hok|constructor]]).
+      destruct (chain_buf i hs s1 Hok) as (ownc & Hec & Hfc & Hbc).
+      destruct (chain sub d i hs (fun st' => Cont st') s1) as [s2|s2|s2|s2] eqn:Ech; cbn [res_st] in Hec, Hbc.
+      2: { apply (pass_buf_prepend s s2 _ ([EClear; ERun d i (avail s)] ++ ownc)); [rewrite Hec, Hs1, <- app_assoc; reflexivity|apply Forall_app; auto|apply IH; exact Hbc]. }
+      all: cbn [pass_buf_post res_st]; exists ([EClear; ERun d i (avail s)] ++ ownc); rewrite Hec, Hs1, <- app_assoc; repeat split; auto; apply Forall_app; auto.
+    + apply IH; exact Hok.
+    + destruct nm; [apply IH; exact Hok|]. exists []. rewrite app_nil_r. auto.
+    + cbn [pass_buf_post res_st]. exists [EDrop d DMatchErr]. rewrite evs_emit. repeat split; auto. repeat constructor.
+    + cbn [pass_buf_post res_st]. exists [EPanic d i]. rewrite evs_emit. repeat split; auto. repeat constructor.
+Qed.
+
+Lemma loop_buf rs dl g : forall lm lnm stt nm s, buf_ok s ->
+  exists own, evs (res_st (loop sub d rs dl (fun s' => Cont s') g lm lnm stt nm s)) = evs s ++ own /\ Forall ev_buf_ok own /\
+              buf_ok (res_st (loop sub d rs dl (fun s' => Cont s') g lm lnm stt nm s)).
+Proof.
+  induction g as [|g IH]; intros lm lnm stt nm s Hok; cbn [Router.loop].
+  { exists []. rewrite app_nil_r. auto. }
+  assert (Hoka : buf_ok (arm dl s)) by exact Hok.
+  destruct (if nm then prefetch (arm dl s) else inl (arm dl s)) as [s'|[w s']] eqn:Epf.
+  2: { destruct nm; [|discriminate]. pose proof (buf_ok_prefetch_fail _ _ _ Hoka Epf) as Hok'. apply prefetch_inr in Epf. destruct Epf as (He & _ & _).
+       exists [EArm; EDrop d w]. cbn [res_st]. rewrite evs_emit, He, evs_arm, <- app_assoc. repeat split; auto. repeat constructor. }
+  assert (Hs' : evs s' = evs s ++ [EArm] /\ buf_ok s').
+  { destruct nm.
+    - pose proof (buf_ok_prefetch _ _ Hoka Epf) as Hok'. apply prefetch_inl in Epf. destruct Epf as (He & _). rewrite He, evs_arm. auto.
+    - inversion Epf; subst s'. rewrite evs_arm. auto. }
+  destruct Hs' as (Hes' & Hok').
+  pose proof (pass_buf rs 0 lm lnm stt nm s' Hok') as HP.
+  destruct (pass sub d 0 rs lm lnm stt nm s') as [r|lm' lnm' stt' s'']; cbn [pass_buf_post] in HP; destruct HP as (own & He & Hf & Hb).
+  { exists ([EArm] ++ own). rewrite He, Hes', <- app_assoc. repeat split; auto. constructor; [exact I|exact Hf]. }
+  destruct (match lm' with Some j => S j =? length rs | None => length rs =? 0 end).
+  { set (s3 := if last_exit_clears && match lm' with None => true | Some _ => false end then clear s'' else s'').
+    assert (Hs3 : exists c, evs s3 = evs s'' ++ c /\ Forall ev_buf_ok c /\ buf_ok s3).
+    { unfold s3. destruct (last_exit_clears && _); [exists [EClear]; rewrite evs_clear; repeat split; auto; repeat constructor|exists []; rewrite app_nil_r; auto]. }
+    destruct Hs3 as (c & Hec & Hfc & Hb3).
+    exists ([EArm] ++ own ++ c ++ [EFallback d (avail s3)]). cbn [res_st]. rewrite evs_emit, Hec, He, Hes', <- !app_assoc.
+    repeat split; auto. constructor; [exact I|]. repeat apply Forall_app; auto. constructor; [apply buf_ok_avail; exact Hb3|constructor]. }
+  destruct (undecided (length rs) lm' stt').
+  { destruct (IH lm' lnm' stt' true s'' Hb) as (own2 & He2 & Hf2 & Hb2).
+    exists ([EArm] ++ own ++ own2). rewrite He2, He, Hes', <- !app_assoc. repeat split; auto. constructor; [exact I|]. apply Forall_app; auto. }
+  exists ([EArm] ++ own ++ [EClear; EFallback d (avail (clear s''))]). cbn [res_st]. rewrite evs_emit, evs_clear, He, Hes', <- !app_assoc.
+  repeat split; auto. constructor; [exact I|]. apply Forall_app; auto. constructor; [exact I|constructor; [apply buf_ok_avail; exact Hb|constructor]].
+Qed.
+End Level.
+
+Lemma compile_buf fuel : buf_ext_ok (compile fuel).
+Proof.
+  induction fuel as [|f IH]; intros d rs t s Hok; cbn [Router.compile].
+  - exists []. rewrite app_nil_r. auto.
+  - apply (loop_buf (compile f) (compile_tail f) IH); exact Hok.
+Qed.
+End Buffer.
+
+(* ------------------------------------------------------------ deadline cleared before handlers; a drop ends everything (C05) *)
+Lemma armed_after_step a l : armed_after a l = fold_left armed_step l a.
+Proof. revert a. induction l as [|e l IH]; intro a; [reflexivity|]. destruct e; cbn; apply IH. Qed.
+Lemma armed_after_app a A B : armed_after a (A ++ B) = armed_after (armed_after a A) B.
+Proof. rewrite !armed_after_step, fold_left_app. reflexivity. Qed.
+Lemma hu_app a A B : hu a A -> hu (armed_after a A) B -> hu a (A ++ B).
+Proof.
+  revert a. induction A as [|e A IH]; intros a HA HB; [exact HB|]. cbn [app hu] in *. destruct HA as [H1 H2].
+  split; [exact H1|]. apply IH; [exact H2|]. destruct e; exact HB.
+Qed.
+Lemma nodrops_app A B : nodrops A -> nodrops B -> nodrops (A ++ B).
+Proof. intros HA HB e Hin. apply in_app_or in Hin. destruct Hin; auto. Qed.
+Lemma drop_last_app A B : nodrops A -> drop_last B -> drop_last (A ++ B).
+Proof.
+  induction A as [|e A IH]; intros HA HB; [exact HB|]. cbn [app drop_last]. split.
+  - intro H. rewrite (HA e (or_introl eq_refl)) in H. discriminate.
+  - apply IH; [intros e' Hin; apply HA; right; exact Hin|exact HB].
+Qed.
+Lemma nodrops_drop_last A : nodrops A -> drop_last A.
+Proof. intro H. rewrite <- (app_nil_r A). apply drop_last_app; [exact H|exact I]. Qed.
+
+Section Shape.
+Hypothesis Hflag : last_exit_clears = true.
+
+Definition w_post (a : bool) (s : st) (r : res) : Prop :=
+  exists own, evs (res_st r) = evs s ++ own /\ hu a own /\ drop_last own /\
+              (is_cont r = true -> armed_after a own = false /\ nodrops own).
+Definition sub_w_ok (c : nat -> list route -> Z -> (st -> res) -> st -> res) : Prop :=
+  forall d rs t s a, w_post a s (c d rs t (fun s' => Cont s') s).
+
+Section Level.
+Variable sub : nat -> list route -> Z -> (st -> res) -> st -> res.
+Hypothesis sub_tail : tail_ok sub.
+Hypothesis sub_w : sub_w_ok sub.
+Variable d : nat.
+
+Ltac nd := let e := fresh in let H := fresh in intros e H; cbn in H; repeat (destruct H as [<-|H]; [reflexivity|]); contradiction.
+
+Lemma chain_w idx hs : forall s, w_post false s (chain sub d idx hs (fun s' => Cont s') s).
+Proof.
+  induction hs as [|h hs IH]; intro s; cbn [Router.chain].
+  - exists []. rewrite app_nil_r. cbn. repeat split; auto. nd.
+  - destruct h.
+    + exists []. rewrite app_nil_r. cbn. repeat split; auto; discriminate.
+    + destruct (read_full_st k s) as [[dta|] s'] eqn:ER; apply read_full_st_evs in ER.
+      * destruct (IH (emit (ERead d idx dta) s')) as (own & He & Hh & Hd & Hc).
+        exists (ERead d idx dta :: own). rewrite He, evs_emit, ER, <- app_assoc. split; [reflexivity|].
+        split; [cbn; split; [discriminate|exact Hh]|]. split; [cbn; split; [discriminate|exact Hd]|].
+        intro Hcont. destruct (Hc Hcont) as [H1 H2]. split; [exact H1|]. intros e [<-|Hin]; [reflexivity|apply H2; exact Hin].
+      * exists [EHErr d idx]. cbn [res_st is_cont]. rewrite evs_emit, ER. split; [reflexivity|]. cbn. repeat split; auto; discriminate.
+    + exists [EHErr d idx]. cbn [res_st is_cont]. rewrite evs_emit. split; [reflexivity|]. cbn. repeat split; auto; discriminate.
+    + apply IH.
+    + rewrite (sub_tail (S d) rs timeout). destruct (sub_w (S d) rs timeout s false) as (own1 & He1 & Hh1 & Hd1 & Hc1).
+      destruct (sub (S d) rs timeout (fun s' => Cont s') s) as [s1|s1|s1|s1] eqn:ES; cbn [bind]; cbn [res_st is_cont] in *.
+      2: { destruct (Hc1 eq_refl) as [Ha1 Hn1]. destruct (IH s1) as (own & He & Hh & Hd & Hc).
+           exists (own1 ++ own). rewrite He, He1, <- app_assoc. split; [reflexivity|].
+           split; [apply hu_app; [exact Hh1|rewrite Ha1; exact Hh]|]. split; [apply drop_last_app; assumption|].
+           intro Hcont. destruct (Hc Hcont) as [H1 H2]. rewrite armed_after_app, Ha1. split; [exact H1|apply nodrops_app; assumption]. }
+      all: exists own1; repeat split; auto; discriminate.
+Qed.
+
+Definition pass_w_post (a : bool) (lm : option nat) (s : st) (pr : passres net) : Prop :=
+  match pr with
+  | PFinal r => exists own, evs (res_st r) = evs s ++ own /\ hu a own /\ drop_last own
+  | PState lm' _ _ s' => exists own, evs s' = evs s ++ own /\ hu a own /\ nodrops own /\
+                           (armed_after a own = false \/ (lm' = lm /\ armed_after a own = a))
+  end.
+
+Lemma pass_w : forall rest i lm lnm stt nm s a, pass_w_post a lm s (pass sub d i rest lm lnm stt nm s).
+Proof.
+  induction rest as [|[mss hs] rest IH]; intros i lm lnm stt nm s a; cbn [Router.pass].
+  - exists []. rewrite app_nil_r. cbn. repeat split; auto. nd.
+  - destruct (leo i lm); [apply IH|].
+    destruct (is_no (stt i) && leo i lnm).
+    { specialize (IH (S i) lm lnm stt nm (emit (ESkip d i (avail s)) s) a).
+      destruct (pass sub d (S i) rest lm lnm stt nm _) as [r|lm' lnm' stt' s']; cbn [pass_w_post] in *.
+      - destruct IH as (own & He & Hh & Hd). exists (ESkip d i (avail s) :: own). rewrite He, evs_emit, <- app_assoc.
+        split; [reflexivity|]. split; [cbn; split; [discriminate|exact Hh]|]. cbn. split; [discriminate|exact Hd].
+      - destruct IH as (own & He & Hh & Hn & Ha). exists (ESkip d i (avail s) :: own). rewrite He, evs_emit, <- app_assoc.
+        split; [reflexivity|]. split; [cbn; split; [discriminate|exact Hh]|].
+        split; [intros e [<-|Hin]; [reflexivity|apply Hn; exact Hin]|exact Ha]. }
+    destruct (anymatch mss (avail s)).
+    + set (s1 := emit (ERun d i (avail s)) (clear s)).
+      assert (Hs1 : evs s1 = evs s ++ [EClear; ERun d i (avail s)]) by (unfold s1; rewrite evs_emit, evs_clear, <- app_assoc; reflexivity).
+      destruct (chain_w i hs s1) as (ownc & Hec & Hhc & Hdc & Hcc).
+      assert (Hhead : hu a ([EClear; ERun d i (avail s)] ++ ownc)).
+      { cbn. split; [discriminate|]. split; [reflexivity|exact Hhc]. }
+      destruct (chain sub d i hs (fun st' => Cont st') s1) as [s2|s2|s2|s2] eqn:Ech; cbn [res_st is_cont] in *.
+      2: { destruct (Hcc eq_refl) as [Hac Hnc].
+           specialize (IH (S i) (Some i) (Some i) (setst stt i SYes) nm s2 false).
+           destruct (pass sub d (S i) rest (Some i) (Some i) (setst stt i SYes) nm s2) as [r|lm' lnm' stt' s']; cbn [pass_w_post] in *.
+           - destruct IH as (own & He & Hh & Hd). exists (([EClear; ERun d i (avail s)] ++ ownc) ++ own).
+             rewrite He, Hec, Hs1, <- !app_assoc. split; [reflexivity|].
+             split; [apply hu_app; [exact Hhead|cbn; rewrite Hac; exact Hh]|].
+             apply drop_last_app; [|exact Hd]. apply nodrops_app; [nd|exact Hnc].
+           - destruct IH as (own & He & Hh & Hn & Ha). exists (([EClear; ERun d i (avail s)] ++ ownc) ++ own).
+             rewrite He, Hec, Hs1, <- !app_assoc. split; [reflexivity|].
+             split; [apply hu_app; [exact Hhead|cbn; rewrite Hac; exact Hh]|].
+             split; [apply nodrops_app; [apply nodrops_app; [nd|exact Hnc]|exact Hn]|].
+             left. rewrite app_assoc, armed_after_app. cbn [app armed_after]. rewrite Hac. destruct Ha as [Ha|[_ Ha]]; exact Ha. }
+      all: cbn [pass_w_post res_st]; exists ([EClear; ERun d i (avail s)] ++ ownc); rewrite Hec, Hs1, <- app_assoc;
+        (split; [reflexivity|]); (split; [exact Hhead|]); cbn; (split; [discriminate|]); (split; [discriminate|exact Hdc]).
+    + apply IH.
+    + destruct nm; [apply IH|]. exists []. rewrite app_nil_r. cbn. repeat split; auto. nd.
+    + cbn [pass_w_post res_st]. exists [EDrop d DMatchErr]. rewrite evs_emit. cbn. repeat split; auto; discriminate.
+    + cbn [pass_w_post res_st]. exists [EPanic d i]. rewrite evs_emit. cbn. repeat split; auto; discriminate.
+Qed.
+
+Definition not_exit (n : nat) (lm : option nat) : Prop := match lm with Some j => (S j =? n) = false | None => True end.
+
+Lemma loop_w rs dl g : forall lm lnm stt nm s a, not_exit (length rs) lm ->
+  w_post a s (loop sub d rs dl (fun s' => Cont s') g lm lnm stt nm s).
+Proof.
+  induction g as [|g IH]; intros lm lnm stt nm s a HP; cbn [Router.loop].
+  { exists []. rewrite app_nil_r. cbn. repeat split; auto; discriminate. }
+  destruct (if nm then prefetch (arm dl s) else inl (arm dl s)) as [s'|[w s']] eqn:Epf.
+  2: { destruct nm; [|discriminate]. apply prefetch_inr in Epf. destruct Epf as (He & _ & _).
+       exists [EArm; EDrop d w]. cbn [res_st is_cont]. rewrite evs_emit, He, evs_arm, <- app_assoc. split; [reflexivity|].
+       cbn. repeat split; auto; discriminate. }
+  assert (Hes' : evs s' = evs s ++ [EArm]).
+  { destruct nm; [apply prefetch_inl in Epf; destruct Epf as (He & _); rewrite He|inversion Epf; subst s']; apply evs_arm. }
+  pose proof (pass_w rs 0 lm lnm stt nm s' true) as HPs.
+  destruct (pass sub d 0 rs lm lnm stt nm s') as [r|lm' lnm' stt' s''] eqn:Epass; cbn [pass_w_post] in HPs.
+  { destruct HPs as (own & He & Hh & Hd). apply pass_final_not_cont in Epass.
+    exists (EArm :: own). rewrite He, Hes', <- app_assoc. split; [reflexivity|].
+    split; [cbn; split; [discriminate|exact Hh]|]. split; [cbn; split; [discriminate|exact Hd]|]. rewrite Epass. discriminate. }
+  destruct HPs as (own & He & Hh & Hn & Ha).
+  destruct (match lm' with Some j => S j =? length rs | None => length rs =? 0 end) eqn:Eexit.
+  { set (s3 := if last_exit_clears && match lm' with None => true | Some _ => false end then clear s'' else s'').
+    assert (Hs3 : exists c, evs s3 = evs s'' ++ c /\ (c = [] \/ c = [EClear]) /\ armed_after (armed_after true own) c = false).
+    { unfold s3. destruct Ha as [Ha|[-> Ha]].
+      - destruct (last_exit_clears && _); [exists [EClear]; rewrite evs_clear; auto|exists []; rewrite app_nil_r; auto].
+      - destruct lm as [j|]; [cbn in HP; rewrite HP in Eexit; discriminate|]. rewrite Hflag. cbn. exists [EClear]. rewrite evs_clear. auto. }
+    destruct Hs3 as (c & Hec & Hc & Hac).
+    exists ((EArm :: own) ++ c ++ [EFallback d (avail s3)]). cbn [res_st is_cont]. rewrite evs_emit, Hec, He, Hes', <- !app_assoc. split; [reflexivity|].
+    assert (Hnc : nodrops c) by (destruct Hc as [->| ->]; nd).
+    assert (Hhc : forall b, hu b c) by (intro b; destruct Hc as [->| ->]; cbn; auto; split; [discriminate|exact I]).
+    split; [apply hu_app; [cbn; split; [discriminate|exact Hh]|apply hu_app; [apply Hhc|]]|].
+    { cbn [armed_after] in *. rewrite Hac. cbn. auto. }
+    assert (Hnall : nodrops ((EArm :: own) ++ c ++ [EFallback d (avail s3)])).
+    { apply nodrops_app; [intros e [<-|Hin]; [reflexivity|apply Hn; exact Hin]|apply nodrops_app; [exact Hnc|nd]]. }
+    split; [apply nodrops_drop_last; exact Hnall|]. intros _. split; [|exact Hnall].
+    rewrite !armed_after_app. cbn [armed_after] in *. rewrite Hac. reflexivity. }
+  assert (HP' : not_exit (length rs) lm') by (destruct lm'; cbn; auto).
+  destruct (undecided (length rs) lm' stt').
+  { destruct (IH lm' lnm' stt' true s'' (armed_after true own) HP') as (own2 & He2 & Hh2 & Hd2 & Hc2).
+    exists ((EArm :: own) ++ own2). rewrite He2, He, Hes', <- !app_assoc. split; [reflexivity|].
+    assert (Hn1 : nodrops (EArm :: own)) by (intros e [<-|Hin]; [reflexivity|apply Hn; exact Hin]).
+    split; [apply hu_app; [cbn; split; [discriminate|exact Hh]|exact Hh2]|]. split; [apply drop_last_app; assumption|].
+    intro Hcont. destruct (Hc2 Hcont) as [H1 H2]. rewrite armed_after_app. split; [exact H1|apply nodrops_app; assumption]. }
+  exists ((EArm :: own) ++ [EClear; EFallback d (avail (clear s''))]). cbn [res_st is_cont]. rewrite evs_emit, evs_clear, He, Hes', <- !app_assoc. split; [reflexivity|].
+  assert (Hnall : nodrops ((EArm :: own) ++ [EClear; EFallback d (avail (clear s''))])).
+  { apply nodrops_app; [intros e [<-|Hin]; [reflexivity|apply Hn; exact Hin]|nd]. }
+  split; [apply hu_app; [cbn; split; [discriminate|exact Hh]|cbn; auto]|]. { split; [discriminate|]. split; [reflexivity|exact I]. }
+  split; [apply nodrops_drop_last; exact Hnall|]. intros _. split; [|exact Hnall]. rewrite armed_after_app. reflexivity.
+Qed.
+End Level.
+
+Lemma compile_w fuel : sub_w_ok (compile fuel).
+Proof.
+  induction fuel as [|f IH]; intros d rs t s a; cbn [Router.compile].
+  - exists []. rewrite app_nil_r. cbn. repeat split; auto; discriminate.
+  - apply (loop_w (compile f) (compile_tail f) IH). exact I.
+Qed.
+End Shape.
+
 (* ------------------------------------------------------------ property C02, as stated in props/C02.v *)
 Section Top.
 Variables (fuel d : nat) (rs : list route) (t : Z) (s : st).
